@@ -70,3 +70,57 @@ def ref_nfa_accepts(js, w):
                 nxt |= T.get((q, a), set())
         cur = ref_closure(js, nxt)
     return bool(cur & set(js['F']))
+
+
+# ------------------------------------------------------------------ regexps
+def mk_regexp(js, mod=None):
+    if mod is None:
+        import gambatools.regexp as mod
+    tag = js[0]
+    if tag == 'Zero':
+        return mod.Zero()
+    if tag == 'One':
+        return mod.One()
+    if tag == 'Symbol':
+        return mod.Symbol(js[1])
+    if tag == 'Iteration':
+        return mod.Iteration(mk_regexp(js[1], mod))
+    return getattr(mod, tag)(mk_regexp(js[1], mod), mk_regexp(js[2], mod))
+
+
+def regexp_json_of(r):
+    n = type(r).__name__
+    if n in ('Zero', 'One'):
+        return [n]
+    if n == 'Symbol':
+        return [n, r.symbol]
+    if n == 'Iteration':
+        return [n, regexp_json_of(r.operand)]
+    return [n, regexp_json_of(r.left), regexp_json_of(r.right)]
+
+
+def ref_regexp_lang(js, n):
+    """all words of length <= n in the denoted language (denotational, bottom-up, independent)"""
+    tag = js[0]
+    if tag == 'Zero':
+        return set()
+    if tag == 'One':
+        return {''}
+    if tag == 'Symbol':
+        return {js[1]} if len(js[1]) <= n else set()
+    if tag == 'Sum':
+        return ref_regexp_lang(js[1], n) | ref_regexp_lang(js[2], n)
+    if tag == 'Concat':
+        A, B = ref_regexp_lang(js[1], n), ref_regexp_lang(js[2], n)
+        return {x + y for x in A for y in B if len(x + y) <= n}
+    A = ref_regexp_lang(js[1], n)
+    res = {''}
+    while True:
+        new = res | {x + y for x in res for y in A if len(x + y) <= n}
+        if new == res:
+            return res
+        res = new
+
+
+def regexp_nodes(js):
+    return 1 + sum(regexp_nodes(c) for c in js[1:] if isinstance(c, list))
